@@ -54,6 +54,11 @@ type c04Case struct {
 	Sel      *int64 `json:"ari_selected_off_ns"`
 	WS       *int64 `json:"ari_window_start_off_ns"`
 	WE       *int64 `json:"ari_window_end_off_ns"`
+	// further fields of the renewal info that the decision must not depend on (the property speaks of
+	// the selected time and the window only): RetryAfter as an offset (0 = derive: absent / long past /
+	// future, from the case's own numbers, so that a replay uses the same), ExplanationURL set or not
+	RA    *int64 `json:"ari_retry_after_off_ns,omitempty"`
+	RAFix bool   `json:"ari_retry_after_fixed,omitempty"`
 	Base     int64  `json:"base_unix_ns"`
 }
 
@@ -208,6 +213,24 @@ func (h *c04h) run(c c04Case, desc map[string]any) {
 	}
 	if we != nil {
 		ari.SuggestedWindow.End = time.Unix(0, *we)
+	}
+	if !c.RAFix {
+		c.RAFix = true
+		switch uint64(c.NBOff^c.NAOff^(c.Interval*7)) % 3 {
+		case 1:
+			c.RA = p64(-int64(26 * time.Hour))
+		case 2:
+			c.RA = p64(int64(6 * time.Hour))
+		}
+	}
+	if c.RA != nil {
+		ra := time.Unix(0, base+*c.RA)
+		ari.RetryAfter = &ra
+		ari.ExplanationURL = "https://ca.example/why"
+	}
+	desc["retry_after"] = map[bool]string{true: "absent", false: "set"}[c.RA == nil]
+	if c.RA != nil && *c.RA < 0 {
+		desc["retry_after"] = "past"
 	}
 	ratio := 0.0
 	if c.RN != 0 {
